@@ -662,3 +662,78 @@ def large_input_witnesses():
     yield "control-struct-chain-1200", ("module M\n" + "".join("struct S%d { a: S%d }\n" % (i, i + 1) for i in range(n)) + "struct S%d { a: bool }\n" % n, [], False)
     n = 3000
     yield "control-nested-sequence-3000-request", ("module M\nstruct S { a: " + "Sequence<" * n + "bool" + ">" * n + " }\n", [], True)
+
+
+def quoted_text_programs():
+    """User text that ends up *inside* a diagnostic message or a snippet - a misplaced doc comment or string literal ("unexpected
+    token"), a deprecation reason, a link target, an unknown directive / symbol / attribute - x every length 1..96 and a few beyond
+    x characters of 1-4 bytes x 0-3 ASCII characters in front, so that every byte offset falls inside a character for some case.
+    Message formatting that cuts, pads or aligns such text by bytes instead of characters panics on one of them."""
+    carriers = [
+        ("doc-comment-as-token", "module M\nstruct S { name: /// %s\n }\n"),
+        ("doc-comment-after-type", "module M\nstruct S { name: bool /// %s\n }\n"),
+        ("string-as-token", "module M\nstruct \"%s\" {}\n"),
+        ("string-as-type", "module M\nstruct S { a: \"%s\" }\n"),
+        ("string-in-enum", "module M\nenum E { A = \"%s\" }\n"),
+        ("deprecation-reason", "module M\n[deprecated(\"%s\")] struct Old {}\nstruct U { o: Old }\n"),
+        ("link-target", "module M\n/// {@link %s}\nstruct S {}\n"),
+        ("link-tail", "module M\n/// {@link S %s}\nstruct S {}\n"),
+        ("param-name", "module M\ninterface I {\n/// @param %s: x\nop()\n}\n"),
+        ("see-target", "module M\n/// @see %s\nstruct S {}\n"),
+        ("unknown-tag", "module M\n/// @%s x\nstruct S {}\n"),
+        ("if-symbol", "module M\n#if %s\n#endif\nstruct S {}\n"),
+        ("directive", "#%s\nmodule M\n"),
+        ("define-tail", "#define A %s\nmodule M\n"),
+        ("attribute-directive", "module M\n[foo::%s] struct S {}\n"),
+        ("attribute-argument", "module M\n[foo(%s)] struct S {}\n"),
+        ("attribute-string", "module M\n[foo(\"%s\", \"%s\")] [foo(\"%s\")] struct S {}\n[deprecated(\"%s\", \"%s\")] struct T {}\n"),
+        ("type-position", "module M\nstruct S { a: %s }\n"),
+        ("module-name", "module %s\n"),
+        ("block-comment-then-error", "module M\n/* %s */ struct S { a: Nope }\n"),
+        ("line-comment-then-error", "module M\nstruct S { a: Nope } // %s\n"),
+        ("doc-then-error", "module M\n/// %s\nstruct S { a: Nope }\n"),
+        ("doc-then-redefinition", "module M\n/// %s\nstruct S {}\n/// %s\nstruct S {}\n"),
+        ("after-token-on-line", "module M\nstruct S { a: bool } \"%s\" struct T { a: Nope }\n"),
+    ]
+    fills = ["e", "\u00e9", "\u4e2d", "\U0001F600", "e\u0301"]
+    lengths = list(range(1, 97)) + [100, 127, 128, 129, 160, 255, 256, 257, 300, 1000]
+    for cname, tpl in carriers:
+        for fi, fill in enumerate(fills):
+            for pad in range(4):
+                for n in lengths:
+                    if n > 96 and pad > 1:
+                        continue
+                    text = "a" * pad + fill * n
+                    yield (cname, fi, pad, n), tpl.replace("%s", text)
+
+
+def cross_file_note_programs():
+    """A diagnostic in one file whose note points into *another* file, where the noted element spans several lines, does not
+    start in column 1, and stands on rows on which the first file has short, empty or no lines. (file order both ways)"""
+    def pad_rows(k):
+        return "\n" * k
+    noted = [
+        # (name, text of the file that holds the noted element - {P} = blank rows in front, text of the file with the diagnostic)
+        ("dictionary-key-field", "module K\n{P}compact struct Key {\n        labels: Sequence<\n            string\n        >\n}\n",
+         "module R\nstruct Reg { d: Dictionary<K::Key, string> }\n"),
+        ("dictionary-key-two-fields", "module K\n{P}compact struct Key {\n   x: Dictionary<\n bool,\n bool>,\n                      y:\n float32\n}\n",
+         "module R\n\n}\n\nstruct Reg { d: Dictionary<K::Key, string> }"),
+        ("dictionary-key-nested", "module K\n{P}compact struct Inner {\n                 f:\n\n\n float64 }\ncompact struct Key { i: Inner }\n",
+         "module R\ntypealias D = Dictionary<K::Key, string>"),
+        ("dictionary-key-struct", "module K\n{P}        struct\n\n   Key\n {\n a: bool }\n", "module R\n\n\n\nstruct Reg { d: Dictionary<K::Key, string> }\n"),
+        ("deprecated-attribute", "module K\n{P}        [deprecated(\n\"reason\"\n   )]\n struct Old {}\n", "module R\nstruct U { o: K::Old }\n"),
+        ("deprecated-attribute-short-user", "module K\n{P}  [\n deprecated\n]\n struct Old {}\n", "module R\nstruct U {\no\n:\nK::Old\n}\n"),
+        ("cycle-field", "module K\n{P}struct A {\n            b:\n\n     R::B\n}\n", "module R\nstruct B { a: K::A }\n"),
+        ("redefinition", "module K\n{P}                struct\n\nS\n{}\n", "module K\nstruct S {}\n"),
+        ("shadowed-operation", "module K\n{P}interface Base {\n            op(\n a: bool\n )\n}\n", "module K\ninterface D : Base { op() }\n"),
+        ("enumerator-redefinition", "module K\n{P}enum E {\n            A(\n x: bool\n ),\n}\n", "module K\nenum E { A }\n"),
+        ("alias-of-key", "module K\n{P}        typealias\n  T\n =\n Sequence<bool>\n", "module R\nstruct Reg { d: Dictionary<K::T, string> }\n"),
+        ("optional-key", "module K\n{P}        typealias\n  T\n =\n bool\n", "module R\nstruct Reg { d: Dictionary<K::T?, string> }\n"),
+    ]
+    for name, other, main in noted:
+        for k in range(0, 7):
+            o = other.replace("{P}", pad_rows(k))
+            for main_variant, m in (("as-is", main), ("one-line", main.replace("\n", " ").replace("module R ", "module R\n").replace("module K ", "module K\n")),
+                                    ("trailing-blank", main + "\n\n\n\n\n\n\n\n")):
+                yield (name, k, main_variant, "main-first"), [m, o]
+                yield (name, k, main_variant, "other-first"), [o, m]
